@@ -16,6 +16,10 @@ CLAIMED = {
    text="Contracts on consumerGroup.consume/Ack/SetConsumedSeq/SetSeq/Pending/IsEmpty, NewConsumerGroup, fanOutQueue.Sync (loop invariant over the group map with a visited set), queue.SetAcknowledgedSeq/SetAppendedSeq/GC and factory.TruncatePages/AcquirePage/GetPage are discharged: acknowledged <= consumed <= appended is preserved, consume hands out consumed+1 or nothing, out-of-range acks change nothing, the queue ack only moves forward, never beyond appended nor beyond the smallest group ack, GC unmaps only pages below the page of the acknowledged sequence, persisted positions equal the in-memory ones; implementations refine the interface contracts used at call sites.",
    note="Sequential contracts + lockset obligations (Ack writes the acknowledged position under the read lock: concurrent Acks are not excluded, declared rwrites). Assumed: same trusted base as C05; disk hypothesis cgDiskOK (persisted group meta satisfies ack <= consumed) for NewConsumerGroup; GetOrCreateConsumerGroup/StopConsumerGroup/Close not under contract.",
    design="4/C06"),
+ "C19": dict(
+   text="Contracts on the pipeline state machine (complete, completeStage, executeStage), the pipeline entry point and its two stage-completion closures, baseStage.Execute and its run closure, workerPool.execTask (including the path through a recovered panic) and LeafExecuteContext.SendResponse are discharged: the completion callback is invoked at most once under arbitrary interference on the two atomics (invariant cbCount==1 ==> completed, compare-and-swap token), it carries an error whenever a stage failed (precondition of the callback), children are registered before their parent completes, a stage run invokes exactly one handler, a panicking pooled task is routed once with a non-nil error to the panic handler which Execute sets to the stage's error handler, a panic reaching pipeline.Execute completes with an error, a leaf request produces at most one response.",
+   note="Ghost call trace of function values (calls/lastnonnil); client code (Stage implementations, the completion callback, the transport) is assumed to meet its declared contract and not to re-enter the state machine; that failures of concurrently completing stages are visible to the thread that brings pending to zero rests on the ordering of the pending counter (assumed); stage ids (uuid) are assumed unique; the pool's dispatcher/worker goroutines and channels are not verified (a submitted task runs at most once is assumed); liveness (never none) is not decided.",
+   design="4/C19"),
 }
 TECH = "contract-based deductive verification: //@ contracts on the real functions, VCs generated from go/ssa by govc, discharged by z3/cvc5"
 
